@@ -142,6 +142,10 @@ type (
 		resetStreamsDuringTaggingJob   bitmask.LongBitmask
 		addedStreamsDuringTaggingJob   bitmask.LongBitmask
 
+		// streams whose converter output was invalidated while a converter job was running: a
+		// conversion that was in flight at that moment stores output for the old data afterwards
+		invalidatedStreamsDuringConverterJob bitmask.LongBitmask
+
 		streamsToConvert         map[string]*bitmask.LongBitmask
 		pcapProcessorWebhookUrls []string
 		pcapOverIPEndpoints      []*pcapOverIPEndpoint
@@ -1637,6 +1641,12 @@ func (mgr *Manager) convertStreamJob(allConverters []*converters.CachedConverter
 	verifGate("convert")
 	mgr.jobs <- func() {
 		mgr.converterJobRunning = false
+		// output stored by this job for a stream that changed while it ran was computed from the old data
+		if !mgr.invalidatedStreamsDuringConverterJob.IsZero() {
+			changed := mgr.invalidatedStreamsDuringConverterJob
+			mgr.invalidatedStreamsDuringConverterJob = bitmask.LongBitmask{}
+			mgr.invalidateConverters(&changed)
+		}
 
 		for i, converter := range allConverters {
 			// The converter was removed while we were running.
@@ -1679,6 +1689,9 @@ func (mgr *Manager) convertStreamJob(allConverters []*converters.CachedConverter
 }
 
 func (mgr *Manager) invalidateConverters(updatedStreams *bitmask.LongBitmask) {
+	if mgr.converterJobRunning {
+		mgr.invalidatedStreamsDuringConverterJob.Or(*updatedStreams)
+	}
 	for _, converter := range mgr.converters {
 		invalidatedStreams := converter.InvalidateChangedStreams(updatedStreams)
 		mgr.streamsToConvert[converter.Name()].Or(invalidatedStreams)
